@@ -24,6 +24,18 @@ def main():
         shutil.rmtree(bak)
     sh("rm -f /verif/replays/*/*.json")
     json.dump({"%s:%s" % k: v for k, v in results.items()}, open("/tmp/seedtest_last.json", "w"), indent=1)
+    if "--all" in sys.argv:
+        lines = ["# Seeded changes: what the checks report", "",
+                 "Written by `python -m harness.seedtest --all` (each patch applied to /repo, the property's quick check run, the patch undone).", "",
+                 "| change | property check | reported | how | what it needs to manifest |", "|---|---|---|---|---|"]
+        for d in dirs:
+            name = os.path.basename(d.rstrip("/"))
+            meta = json.load(open(os.path.join(d, "meta.json")))
+            for (n, p), v in sorted(results.items()):
+                if n == name:
+                    lines.append("| %s | %s | %s | %s | %s |" % (name, p, "yes" if v["violation"] else "NO", v["how"],
+                                                              str(meta.get("needs", ""))[:160].replace("|", "/").replace("\n", " ")))
+        open("/verif/seeded/RESULTS.md", "w").write("\n".join(lines) + "\n")
     return 0
 
 
@@ -42,7 +54,15 @@ def _run(dirs, props_override):
                 viol = [l for l in o.stdout.splitlines() if l.startswith("VIOLATION")]
                 last = o.stdout.strip().splitlines()[-1] if o.stdout.strip() else ""
                 print("%s  check=%s  exit=%d  %s" % (os.path.basename(d), p, o.returncode, (viol[0] if viol else "no violation")[:150]))
-                results[(os.path.basename(d), p)] = bool(viol)
+                how = "-"
+                if viol:
+                    how = "no-failing-input-found" if "no-failing-input-found" in viol[0] else "concrete failing input"
+                    try:
+                        rp = json.load(open(viol[0].split("replay=")[1].split()[0]))
+                        how += " (%s)" % rp.get("key")
+                    except Exception:
+                        pass
+                results[(os.path.basename(d), p)] = {"violation": bool(viol), "how": how}
         finally:
             sh("git -C /repo checkout -- .")
     return results
